@@ -29,6 +29,15 @@ CHECKS = {
                      "after every call is validated as a behaviour of the models by TLC; every MoveToFront transition is replayed on the template.",
                 note="trusted: the abstraction (ghost tags instead of numbers), sanitizers; Adj facade and LocalNetwork object are not yet modelled "
                      "(network level is covered relationally by other properties)", ref="8/C04"),
+    "C11": dict(cat="model_checking", technique="TLC model checking of grammar x parser-automaton product + replay of all emitted documents under ASan/UBSan + mutation sweep",
+                text="GkfModel.tla is the product of the documented grammar (xsd) and the (state,tag) automaton transcribed from GKFparser; TLC checks "
+                     "Inclusion (grammar-valid prefixes never reach the error state), ErrorHasLine (no way into the error state bypasses error()), "
+                     "ErrorAbsorbing, Completeness and Exactness (only named liberal deviations) over all event sequences up to the bound. Every emitted "
+                     "sequence is materialised (one event per line) and run through the sanitizer build of gama-local: accepted/rejected and the error "
+                     "line must equal the model's verdict. Deterministic truncations/replacements/deletions of repository inputs must terminate without "
+                     "sanitizer report and a refusal must name a line inside the document.",
+                note="trusted: ASan/UBSan/timeouts as observers of memory safety and termination; expat for well-formedness errors; attribute-level "
+                     "and literal-level grammar, chunked delivery and the g3 / results parsers are in the thorough tier only as far as implemented", ref="8/C11"),
 }
 
 NOT_APPLICABLE = []
